@@ -41,8 +41,19 @@ RULE = ("case = (n, per-letter dictionary (default X,Y,Z plus user-added random 
         "the terms of the fast paths' sums, seen through the PUBLIC include_extras=True outputs with psi = all-ones (term i = coefficient Ut_i, paired with the "
         "expanded state v_i), compared as a SET of (state, coefficient) pairs per sample with the model's enumeration (auxiliary; listing order, the private helper "
         "_rotate_basis_state and the numpy/real-pair representation are NOT constrained: unrecognised output = informational counter, no mismatch); "
+        "USER-ADDED GATES (final pass, kind userdict): gates of special structure - diagonal non-identity (S, T, phase flip diag(1,-1), random phases), "
+        "permutation matrices (NOT, the Pauli-Y permutation with phases), a real rotation, a generic unitary - handed to create_dict as a pair tensor of "
+        "EVERY element type the clean code converts (int64 / int32 / int8 / float16 / float32 / float64), as a numpy array (int64 / int32 / float32 / float64) "
+        "or as nested lists of ints; the dense oracle uses the matrix the object denotes; own dictionary of a ComplexWaveFunction / DensityMatrix or given to "
+        "explicit-operand calls; rotate_psi, the rotate_psi_inner_prod AMPLITUDES, rotate_rho, rotate_rho_probs against numpy Kronecker products (property "
+        "level) and against the model; create_dict must store the denoted entries and leave its arguments alone; "
+        "ENVIRONMENTS (env_run): a sample of every kind is re-run with all objects constructed under default dtype float64 / no_grad / another cwd; "
+        "OUT-OF-QUANTIFIER INTEGER OBJECTS (second audit X-1): a 0-d ndarray / 0-d tensor / np.uint8 as a size that the code REFUSES is an informational "
+        "counter (the case ends without a verdict); a silently wrong architecture is still reported; the generate_hilbert_space oracle demands 'all 2^n "
+        "states, each once' (listing order / element type: counter); "
         "non-trivial iff the basis has a non-Z letter and psi/rho has a non-real entry; distinct by hash of (dictionary, basis, operand, path)")
-TH = {"rotate_psi": "C04_rotate_psi", "rotate_rho": "C04_rotate_rho / C04_rotate_rho_hermitian",
+TH = {"rotate_psi": "C04_rotate_psi (model-derived psi: C04_rotate_psi_model)",
+      "rotate_rho": "C04_rotate_rho / C04_rotate_rho_hermitian (model-derived rho: C04_rotate_rho_model)",
       "inner": "C04_inner_prod_enum_dense", "probs": "C04_rho_probs_enum_dense",
       "expand": "C04_expand_enumerates / C04_rotate_basis_state"}
 
@@ -50,6 +61,7 @@ REQUIRED_THEOREMS = ["C04_unitaries_of", "C04_create_dict", "C04_rotate_psi_dict
                      "C04_inner_prod_dict", "C04_rho_probs_dict", "C04_fastK_eq_dense_patched", "C04_fast_paths_ignore_unrotated", "C04_fastK_unitary",
                      "C04_inner_prod_probs_sum", "C04_model_probs_physical_psi", "C04_model_probs_physical_pos", "C04_model_probs_physical",
                      "C04_Z_override_fast_ne_dense",
+                     "C04_rotate_rho_model", "C04_rotate_psi_model",   # second audit C04-1: operands TAKEN FROM THE MODEL, no hypothesis
                      "C04_index_convention", "C04_rotate_psi", "C04_rotate_rho", "C04_rotate_rho_hermitian", "C04_rotate_psi_loop",
                      "C04_rotate_rho_loop", "C04_dense_eq_kronecker", "C04_fastK_eq_dense", "C04_expand_enumerates", "C04_rotate_basis_state",
                      "C04_inner_prod_enum", "C04_inner_prod_enum_dense", "C04_rho_probs_enum", "C04_rho_probs_enum_dense",
@@ -151,6 +163,30 @@ def create_dict_forms(A, d, ints=False, ctx=None):
 
 class CaseAbort(Exception):
     """the case cannot be evaluated further (the reason has been recorded as an oracle failure)"""
+
+
+# Second audit, item X-1: the sizes of the constructors and `size` of generate_hilbert_space are documented as `int`.  Python ints and the numpy
+# integer scalars that arise from `.shape` / `np.arange` (np.int64 / np.int32 / np.intp) are what callers have in hand: a refusal of one of those is
+# reported.  A 0-d integer ndarray, a 0-d integer tensor and np.uint8 are in no quantifier: a constructor / generate_hilbert_space that REFUSES
+# one of them (a harmless `isinstance(x, numbers.Integral)` validation, a wrap-around guard) is counted and the case ends without a verdict;
+# a silently WRONG architecture / space for them is still reported (af.check_sizes, hilbert-space oracle).
+EXOTIC_INT_FORMS = ("np0d", "t0d", "np.uint8")
+
+
+def build(ctx, A, f):
+    """f() with every integer of the stream it consumes; an exception while an exotic integer object was among them = informational"""
+    k0 = len(A.ints.used)
+    try:
+        return f()
+    except CaseAbort:
+        raise
+    except Exception as e:  # noqa: BLE001
+        ex = sorted({d["form"] for d in A.ints.used[k0:]} & set(EXOTIC_INT_FORMS))
+        if not ex:
+            raise
+        ctx.count(f"argform/integer given as {'+'.join(ex)} refused with {type(e).__name__} (informational: documented type is int)")
+        A.ints.used.clear(); A.flags.used.clear()
+        raise CaseAbort()
 
 
 def case_args(ctx, case):
@@ -272,11 +308,24 @@ def hilbert_space_arg(ctx, case, A, st, n, space_t, kind):
     if A.aseed is None:
         return space_t
     (so, sd) = A.i_desc(n)
-    gen = st.generate_hilbert_space(so) if A.coin(0.5) else st.generate_hilbert_space(size=so)
-    ok = bool(hasattr(gen, "shape") and tuple(gen.shape) == tuple(space_t.shape) and gen.dtype == torch.double and torch.equal(gen, space_t))
-    ctx.oracle("generate_hilbert_space(size) (the `space` handed to rotate_psi / rotate_rho) == all 2^n basis states in counting order", ok, case,
+    gen = build(ctx, A, lambda: st.generate_hilbert_space(so) if A.coin(0.5) else st.generate_hilbert_space(size=so))
+    # what C04 needs of the `space` argument: all 2^n basis states, each once (element type and listing order are C19's business); the rotation
+    # entry points are then handed the harness's own enumeration when the order is another one (counted)
+    try:
+        rows = [tuple(int(round(float(x))) for x in r) for r in gen.detach().cpu().numpy().reshape(len(gen), -1)]
+        vals_ok = bool(np.all(np.isin(gen.detach().cpu().numpy(), (0, 1))))
+    except Exception:  # noqa: BLE001
+        rows, vals_ok = None, False
+    want = [tuple(int(x) for x in r) for r in space_t.numpy()]
+    ok = vals_ok and rows is not None and len(rows) == len(want) and sorted(rows) == sorted(want)
+    ctx.oracle("generate_hilbert_space(size) (the `space` handed to rotate_psi / rotate_rho) lists all 2^n basis states, each once", ok, case,
                detail={"size": sd, "shape": list(getattr(gen, "shape", []))}, sig=f"{kind}/hilbert-space-size", theorem="C04_index_convention")
-    return gen if ok else None
+    if not ok:
+        return None
+    if rows != want or gen.dtype != torch.double:
+        ctx.count("hilbert space in another listing order / element type than modelled (informational; the harness's enumeration is used)")
+        return space_t
+    return gen
 
 
 CTOR_TH = "C04_rotate_psi / C04_rotate_rho / C04_model_probs_physical (stated for the n-site state the caller asked for)"
@@ -385,6 +434,8 @@ def _one_case(ctx, case):
         return zoverride_case(ctx, case)
     if case.get("kind") == "vecstates":
         return vecstates_case(ctx, case)
+    if case.get("kind") == "userdict":
+        return userdict_case(ctx, case)
     n, basis, exact, kind = case["n"], case["basis"], case["exact"], case["kind"]
     ctx.current_case = case
     rng_seed = case["seed"]
@@ -406,7 +457,7 @@ def _one_case(ctx, case):
         if kind == "psi_model":
             am = qc.rand_rbm_params(rng, n, 2, 0.7)
             ph = qc.rand_rbm_params(rng, n, 2, 1.0)
-            st = af.make_complex(A, n, 2, am, ph, unitary_dict=td) if case.get("cplx", True) else af.make_positive(A, n, 2, am)
+            st = build(ctx, A, lambda: af.make_complex(A, n, 2, am, ph, unitary_dict=td) if case.get("cplx", True) else af.make_positive(A, n, 2, am))
             if not af.check_sizes(ctx, st, (n, 2), case, A, f"{kind}/ctor-sizes", CTOR_TH):
                 return
             if not hasattr(st, "unitary_dict"):
@@ -417,7 +468,7 @@ def _one_case(ctx, case):
             psi = from_pair_tensor(st.psi(space_t))
             psi_arg = None
         else:
-            st = FakeState(n, td, A=A)
+            st = build(ctx, A, lambda: FakeState(n, td, A=A))
             if not af.check_sizes(ctx, st._h, (n, 1), case, A, f"{kind}/ctor-sizes", CTOR_TH):
                 return
             psi = rand_gint(rng, (N,)) if exact else np.array([complex(rng.gauss(0, 1), rng.gauss(0, 1)) for _ in range(N)])
@@ -480,7 +531,7 @@ def _one_case(ctx, case):
         if kind == "rho_model":
             am = qc.rand_prbm_params(rng, n, 2, 2, 0.7)
             ph = qc.rand_prbm_params(rng, n, 2, 2, 1.0, d_zero=True)
-            st = af.make_density(A, n, 2, 2, am, ph, unitary_dict=td)
+            st = build(ctx, A, lambda: af.make_density(A, n, 2, 2, am, ph, unitary_dict=td))
             if not af.check_sizes(ctx, st, (n, 2, 2), case, A, f"{kind}/ctor-sizes", CTOR_TH):
                 return
             space_t = hilbert_space_arg(ctx, case, A, st, n, space_t, kind)
@@ -490,7 +541,7 @@ def _one_case(ctx, case):
             rho_flag_form(ctx, case, A, st, space_t, rho, kind)
             rho_arg = None
         else:
-            st = FakeState(n, td, A=A)
+            st = build(ctx, A, lambda: FakeState(n, td, A=A))
             if not af.check_sizes(ctx, st._h, (n, 1), case, A, f"{kind}/ctor-sizes", CTOR_TH):
                 return
             a = rand_gint(rng, (N, N)) if exact else np.array([[complex(rng.gauss(0, 1), rng.gauss(0, 1)) for _ in range(N)] for _ in range(N)])
@@ -595,10 +646,17 @@ def dict_case(ctx, aseed=None):
     for k in d1:
         d1[k].mul_(-3.0)
     d2 = unitaries.create_dict()
-    st_a = qc.ComplexWaveFunction(A.i(1), A.i(1), gpu=A.b(False))
-    st_a.unitary_dict["X"].add_(1.0)
-    st_b = qc.ComplexWaveFunction(A.i(1), A.i(1), None, A.b(False)) if A.coin() else qc.ComplexWaveFunction(A.i(1), A.i(1), gpu=A.b(False))
-    st_c = qc.DensityMatrix(A.i(1), A.i(1), A.i(1), None, A.b(False)) if A.coin() else qc.DensityMatrix(A.i(1), A.i(1), A.i(1), gpu=A.b(False))
+    try:
+        st_a = build(ctx, A, lambda: qc.ComplexWaveFunction(A.i(1), A.i(1), gpu=A.b(False)))
+        st_a.unitary_dict["X"].add_(1.0)
+        st_b = build(ctx, A, lambda: qc.ComplexWaveFunction(A.i(1), A.i(1), None, A.b(False)) if A.coin() else qc.ComplexWaveFunction(A.i(1), A.i(1), gpu=A.b(False)))
+        st_c = build(ctx, A, lambda: qc.DensityMatrix(A.i(1), A.i(1), A.i(1), None, A.b(False)) if A.coin() else qc.DensityMatrix(A.i(1), A.i(1), A.i(1), gpu=A.b(False)))
+    except CaseAbort:   # an exotic integer object refused (informational): the same three states from Python ints
+        A = af.Args(None)
+        aseed = None
+        st_a = qc.ComplexWaveFunction(1, 1, gpu=False)
+        st_a.unitary_dict["X"].add_(1.0)
+        st_b, st_c = qc.ComplexWaveFunction(1, 1, gpu=False), qc.DensityMatrix(1, 1, 1, gpu=False)
     if aseed is not None:
         sz = [af.sizes_of(st_a), af.sizes_of(st_b), af.sizes_of(st_c)]
         ctx.oracle("constructed architecture == requested sizes (default-dictionary states)", sz == [(1, 1), (1, 1), (1, 1, 1)], case,
@@ -717,13 +775,13 @@ def dictres_case(ctx, case):
     space = qc.all_states(n)
     space_t = torch.tensor(space, dtype=torch.double)
     if state == "complex":
-        st = af.make_complex(A, n, 2, qc.rand_rbm_params(rng, n, 2, 0.7), qc.rand_rbm_params(rng, n, 2, 1.0), unitary_dict=td_own)
+        st = build(ctx, A, lambda: af.make_complex(A, n, 2, qc.rand_rbm_params(rng, n, 2, 0.7), qc.rand_rbm_params(rng, n, 2, 1.0), unitary_dict=td_own))
     elif state == "positive":
-        st = af.make_positive(A, n, 2, qc.rand_rbm_params(rng, n, 2, 0.7))
+        st = build(ctx, A, lambda: af.make_positive(A, n, 2, qc.rand_rbm_params(rng, n, 2, 0.7)))
     elif state == "density":
-        st = af.make_density(A, n, 2, 2, qc.rand_prbm_params(rng, n, 2, 2, 0.7), qc.rand_prbm_params(rng, n, 2, 2, 1.0, d_zero=True), unitary_dict=td_own)
+        st = build(ctx, A, lambda: af.make_density(A, n, 2, 2, qc.rand_prbm_params(rng, n, 2, 2, 0.7), qc.rand_prbm_params(rng, n, 2, 2, 1.0, d_zero=True), unitary_dict=td_own))
     else:
-        st = FakeState(n, td_own if td_own is not None else unitaries.create_dict(), has_dict=(state == "fake"), A=A)
+        st = build(ctx, A, lambda: FakeState(n, td_own if td_own is not None else unitaries.create_dict(), has_dict=(state == "fake"), A=A))
     if not af.check_sizes(ctx, getattr(st, "_h", st), {"density": (n, 2, 2), "complex": (n, 2), "positive": (n, 2)}.get(state, (n, 1)), case, A,
                           f"dictres/{state}/ctor-sizes", CTOR_TH):
         return
@@ -842,12 +900,12 @@ def zoverride_case(ctx, case):
     tol = {"rtol": 0, "atol": 0} if exact else {}
     if state in ("fake", "complex"):
         if state == "complex":
-            st = af.make_complex(A, n, 2, qc.rand_rbm_params(rng, n, 2, 0.7), qc.rand_rbm_params(rng, n, 2, 1.0), unitary_dict=td)
+            st = build(ctx, A, lambda: af.make_complex(A, n, 2, qc.rand_rbm_params(rng, n, 2, 0.7), qc.rand_rbm_params(rng, n, 2, 1.0), unitary_dict=td))
             if not af.check_sizes(ctx, st, (n, 2), case, A, "zoverride/ctor-sizes", CTOR_TH):
                 return
             psi, psi_arg, given = from_pair_tensor(st.psi(space_t)), None, None  # the state's own dictionary
         else:
-            st = FakeState(n, unitaries.create_dict(), A=A)
+            st = build(ctx, A, lambda: FakeState(n, unitaries.create_dict(), A=A))
             if not af.check_sizes(ctx, st._h, (n, 1), case, A, "zoverride/ctor-sizes", CTOR_TH):
                 return
             psi = rand_gint(rng, (N,)) if exact else np.array([complex(rng.gauss(0, 1), rng.gauss(0, 1)) for _ in range(N)])
@@ -874,12 +932,12 @@ def zoverride_case(ctx, case):
                       scale=sc, theorem="C04_inner_prod_enum, C04_fast_paths_ignore_unrotated", sig="zoverride/inner-model", **tol)
     else:
         if state == "density":
-            st = af.make_density(A, n, 2, 2, qc.rand_prbm_params(rng, n, 2, 2, 0.7), qc.rand_prbm_params(rng, n, 2, 2, 1.0, d_zero=True), unitary_dict=td)
+            st = build(ctx, A, lambda: af.make_density(A, n, 2, 2, qc.rand_prbm_params(rng, n, 2, 2, 0.7), qc.rand_prbm_params(rng, n, 2, 2, 1.0, d_zero=True), unitary_dict=td))
             if not af.check_sizes(ctx, st, (n, 2, 2), case, A, "zoverride/ctor-sizes", CTOR_TH):
                 return
             rho, rho_arg, given = from_pair_tensor(st.rho(space_t, space_t)), None, None
         else:
-            st = FakeState(n, unitaries.create_dict(), A=A)
+            st = build(ctx, A, lambda: FakeState(n, unitaries.create_dict(), A=A))
             if not af.check_sizes(ctx, st._h, (n, 1), case, A, "zoverride/ctor-sizes", CTOR_TH):
                 return
             a = rand_gint(rng, (N, N)) if exact else np.array([[complex(rng.gauss(0, 1), rng.gauss(0, 1)) for _ in range(N)] for _ in range(N)])
@@ -907,6 +965,187 @@ def zoverride_case(ctx, case):
                       theorem="C04_rho_probs_enum, C04_fast_paths_ignore_unrotated", sig="zoverride/probs-model", **tol)
 
 
+
+# ------------------------------------------------------------------ final pass: user-added unitaries of special structure, in every object form
+# "plus user-added single-qubit unitaries": a user writes a gate down the natural way - the NOT / phase-flip / S gates as INTEGER tensors or
+# nested lists, a matrix computed in single precision as a float32 tensor / array, everything else in double.  create_dict documents that it
+# takes them ("keyword arguments of any unitary operators to add"); the clean code converts every form to a float64 pair tensor.  Special
+# structure matters to the fast paths (which enumerate the rotated sites' expansions): DIAGONAL non-identity gates (S, T, phase flip, random
+# phases), PERMUTATION gates (NOT, the Pauli-Y permutation with phases), REAL orthogonal gates, next to a generic unitary.
+def _gate(letter, rng):
+    r2 = 1.0 / np.sqrt(2.0)
+    if letter == "S":
+        return np.array([[1, 0], [0, 1j]], dtype=complex), True
+    if letter == "P":
+        return np.array([[1, 0], [0, -1]], dtype=complex), True
+    if letter == "N":
+        return np.array([[0, 1], [1, 0]], dtype=complex), True
+    if letter == "Q":
+        return np.array([[0, -1j], [1j, 0]], dtype=complex), True
+    if letter == "T":
+        return np.array([[1, 0], [0, r2 + 1j * r2]], dtype=complex), False
+    if letter == "D":
+        a, b = rng.uniform(-np.pi, np.pi), rng.uniform(-np.pi, np.pi)
+        return np.array([[np.exp(1j * a), 0], [0, np.exp(1j * b)]], dtype=complex), False
+    if letter == "R":
+        a = rng.uniform(-np.pi, np.pi)
+        return np.array([[np.cos(a), -np.sin(a)], [np.sin(a), np.cos(a)]], dtype=complex), False
+    return rand_unitary(rng), False   # "G"
+
+
+USER_LETTERS = "SPNQTDRG"
+DIAGONAL_LETTERS = "SPTD"
+INT_MATRIX_FORMS = ("tensor:int64", "tensor:int32", "tensor:int8", "tensor:float32", "tensor:float16", "tensor:float64",
+                    "numpy:int64", "numpy:int32", "numpy:float32", "numpy:float64", "list:int")
+FLOAT_MATRIX_FORMS = ("tensor:float64", "tensor:float32", "numpy:float64", "numpy:float32")
+
+
+def gate_in_form(v, form):
+    """-> (object handed to create_dict, the complex 2x2 matrix that object denotes).  A single-precision form denotes the float32 rounding of `v`
+    (the statement holds for whatever matrices the dictionary holds, unitary or not: C04_rotate_psi / C04_inner_prod_enum_dense)"""
+    a = np.asarray(v, dtype=complex)
+    pair = np.stack([a.real, a.imag])
+    box, dt = form.split(":")
+    if dt.startswith("int"):
+        pair = np.rint(pair).astype({"int64": np.int64, "int32": np.int32, "int8": np.int8, "int": np.int64}[dt])
+    else:
+        pair = pair.astype({"float64": np.float64, "float32": np.float32, "float16": np.float16}[dt])
+    denoted = pair[0].astype(np.float64) + 1j * pair[1].astype(np.float64)
+    if box == "tensor":
+        return torch.tensor(pair, dtype=getattr(torch, dt)), denoted
+    if box == "list":
+        return pair.tolist(), denoted
+    return pair, denoted
+
+
+def userdict_case(ctx, case):
+    ctx.current_case = case
+    rng = _import_random().Random(case["seed"])
+    A = case_args(ctx, case)
+    n, basis, state = case["n"], case["basis"], case["state"]
+    N = 2 ** n
+    r2 = 1.0 / np.sqrt(2.0)
+    d = {"X": np.array([[1, 1], [1, -1]], dtype=complex) * r2, "Y": np.array([[1, -1j], [1, 1j]], dtype=complex) * r2, "Z": np.eye(2, dtype=complex)}
+    frng = _import_random().Random(case["seed"] ^ 0x5A5A5A)   # the object forms (part of the case: replayed identically)
+    kw, forms = {}, {}
+    for L in sorted(set(basis) - set("XYZ")):
+        v, is_int = _gate(L, rng)
+        forms[L] = case.get("forms", {}).get(L) or frng.choice(INT_MATRIX_FORMS if is_int else FLOAT_MATRIX_FORMS)
+        kw[L], d[L] = gate_in_form(v, forms[L])
+        ctx.count(f"userdict: gate {L} given as {forms[L]}")
+    snap = {k: (v.clone() if hasattr(v, "clone") else np.array(v)) for k, v in kw.items()}
+    td = unitaries.create_dict(**kw)
+    ok_dict = set(td.keys()) == set("XYZ") | set(kw) and all(
+        _canon_cplx(td[L]) is not None and np.array_equal(_canon_cplx(td[L]), d[L]) for L in kw)
+    ctx.case({k: case[k] for k in ("n", "basis", "state", "seed")}, nontrivial=True,
+             sample={"n": n, "basis": basis, "kind": "userdict", "state": state, "forms": forms})
+    ctx.count("kind=userdict"); ctx.count(f"userdict:state={state}")
+    if any(b in DIAGONAL_LETTERS for b in basis):
+        ctx.count("userdict: basis with a diagonal non-identity gate")
+    sub = {**case, "forms": forms}
+    ctx.oracle("create_dict(**gates) holds X, Y, Z and every given gate with the entries the given object denotes", bool(ok_dict), sub,
+               detail={"keys": sorted(td.keys()), "forms": forms}, sig="userdict/create_dict", theorem="C04_create_dict")
+    ctx.oracle("create_dict leaves the objects it was given unchanged",
+               all((torch.equal(kw[k], snap[k]) if hasattr(kw[k], "clone") else np.array_equal(np.array(kw[k]), snap[k])) for k in kw), sub,
+               sig="userdict/args-mutated", theorem="C04_create_dict")
+    if not ok_dict:
+        return
+    K = dense_K([d[b] for b in basis])
+    rot = [b != "Z" for b in basis]
+    us_enc = [m2enc(d[b], False) for b in basis]
+    space = qc.all_states(n)
+    space_t = torch.tensor(space, dtype=torch.double)
+    batch = [rng.randrange(N) for _ in range(min(2 * N, 10))] + [0, N - 1]
+    states = [space[k] for k in batch]
+    states_t = torch.tensor(states, dtype=torch.double)
+    own = state in ("complex", "density")       # the dictionary is the STATE's (constructor argument) / is given to every call
+    given = None if own else td
+    if state in ("complex", "fake_psi"):
+        if own:
+            st = build(ctx, A, lambda: af.make_complex(A, n, 2, qc.rand_rbm_params(rng, n, 2, 0.7), qc.rand_rbm_params(rng, n, 2, 1.0), unitary_dict=td))
+            if not af.check_sizes(ctx, st, (n, 2), case, A, "userdict/ctor-sizes", CTOR_TH):
+                return
+            psi, psi_arg = from_pair_tensor(st.psi(space_t)), None
+        else:
+            st = build(ctx, A, lambda: FakeState(n, unitaries.create_dict(), A=A))
+            psi = np.array([complex(rng.gauss(0, 1), rng.gauss(0, 1)) for _ in range(N)])
+            psi_arg = to_pair_tensor(psi)
+        want = K @ psi
+        sc = float(np.max(np.abs(want))) + float(np.max(np.abs(psi))) + 1e-300
+        impl = from_pair_tensor(rot_call(A, unitaries.rotate_psi, st, basis, space_t, given, "psi", psi_arg))
+        ctx.oracle("rotate_psi == kron(U) psi (user-added gates)", bool(impl.shape == want.shape and np.allclose(impl, want, rtol=1e-9, atol=1e-9 * sc)), sub,
+                   detail={"impl": str(impl[:6]), "dense": str(want[:6]), "forms": forms}, sig=f"userdict/rotate_psi/{state}", theorem=TH["rotate_psi"])
+        ip = fast_value(ctx, A, "inner", st, basis, states_t, given, psi_arg, len(batch), {})
+        ctx.oracle("rotate_psi_inner_prod AMPLITUDES == (kron(U) psi)[states] (user-added gates)", bool(np.allclose(ip, want[batch], rtol=1e-9, atol=1e-9 * sc)), sub,
+                   detail={"impl": str(ip[:6]), "dense": str(want[batch][:6]), "forms": forms}, sig=f"userdict/rotate_psi_inner_prod/{state}", theorem=TH["inner"])
+        extras_check(ctx, sub, A, "inner", st, basis, states_t, given, psi_arg, want[batch], sc, "userdict", 1e-9)
+        if ctx.driver is not None:
+            m = ctx.driver.call("c04.rotate_psi", n=n, us=us_enc, psi=[cenc(z, False) for z in psi])
+            mv = np.array([cdec(p_, False) for p_ in m])
+            if impl.shape == mv.shape:
+                ctx.point("rotate_psi (user-added gates)", "property", np.r_[impl.real, impl.imag], np.r_[mv.real, mv.imag], sub, scale=sc,
+                          theorem=TH["rotate_psi"], sig=f"userdict/rotate_psi/{state}")
+            m = ctx.driver.call("c04.inner_prod", n=n, us=us_enc, rot=rot, psi=[cenc(z, False) for z in psi], states=states)
+            mv = np.array([cdec(p_, False) for p_ in m])
+            ctx.point("rotate_psi_inner_prod (user-added gates)", "property", np.r_[ip.real, ip.imag], np.r_[mv.real, mv.imag], sub, scale=sc,
+                      theorem=TH["inner"], sig=f"userdict/rotate_psi_inner_prod/{state}")
+    else:
+        if own:
+            st = build(ctx, A, lambda: af.make_density(A, n, 2, 2, qc.rand_prbm_params(rng, n, 2, 2, 0.7), qc.rand_prbm_params(rng, n, 2, 2, 1.0, d_zero=True),
+                                                       unitary_dict=td))
+            if not af.check_sizes(ctx, st, (n, 2, 2), case, A, "userdict/ctor-sizes", CTOR_TH):
+                return
+            rho, rho_arg = from_pair_tensor(st.rho(space_t, space_t)), None
+        else:
+            st = build(ctx, A, lambda: FakeState(n, unitaries.create_dict(), A=A))
+            a = np.array([[complex(rng.gauss(0, 1), rng.gauss(0, 1)) for _ in range(N)] for _ in range(N)])
+            rho = a @ a.conj().T
+            rho_arg = to_pair_tensor(rho)
+        dense = K @ rho @ K.conj().T
+        sc = float(np.max(np.abs(dense))) + float(np.max(np.abs(rho))) + 1e-300
+        impl = from_pair_tensor(rot_call(A, unitaries.rotate_rho, st, basis, space_t, given, "rho", rho_arg))
+        ctx.oracle("rotate_rho == U rho U^dag (user-added gates)", bool(impl.shape == dense.shape and np.allclose(impl, dense, rtol=1e-9, atol=1e-8 * sc)), sub,
+                   detail={"impl": str(impl[0, :4]), "dense": str(dense[0, :4]), "forms": forms}, sig=f"userdict/rotate_rho/{state}", theorem=TH["rotate_rho"])
+        pr = fast_value(ctx, A, "probs", st, basis, states_t, given, rho_arg, len(batch), {})
+        want = np.real(np.diag(dense))[batch]
+        ctx.oracle("rotate_rho_probs == diag(U rho U^dag)[states] (user-added gates)", bool(np.allclose(pr, want, rtol=1e-9, atol=1e-8 * sc)), sub,
+                   detail={"impl": pr[:6].tolist(), "dense": want[:6].tolist(), "forms": forms}, sig=f"userdict/rotate_rho_probs/{state}", theorem=TH["probs"])
+        extras_check(ctx, sub, A, "probs", st, basis, states_t, given, rho_arg, want, sc, "userdict", 1e-8)
+        if ctx.driver is not None:
+            rho_enc = [[cenc(z, False) for z in row] for row in rho]
+            m = ctx.driver.call("c04.rotate_rho", n=n, us=us_enc, rho=rho_enc)
+            mv = np.array([[cdec(p_, False) for p_ in row] for row in m])
+            if impl.shape == mv.shape:
+                ctx.point("rotate_rho (user-added gates)", "property", np.r_[impl.real.ravel(), impl.imag.ravel()], np.r_[mv.real.ravel(), mv.imag.ravel()], sub,
+                          scale=sc, theorem=TH["rotate_rho"], sig=f"userdict/rotate_rho/{state}")
+            m = ctx.driver.call("c04.rho_probs", n=n, us=us_enc, rot=rot, rho=rho_enc, states=states)
+            mv = np.array([float(unbits([p_])[0]) for p_ in m])
+            ctx.point("rotate_rho_probs (user-added gates)", "property", pr, mv, sub, scale=sc, theorem=TH["probs"], sig=f"userdict/rotate_rho_probs/{state}")
+    ctx.oracle("the dictionary is left untouched by the rotation helpers (user-added gates)",
+               all(np.array_equal(_canon_cplx(td[L]), d[L]) for L in kw), sub, sig="userdict/dict-mutated", theorem="C04_unitaries_of")
+    A.count_into(ctx)
+
+
+def gen_userdict_cases(rng, thorough):
+    # every gate alone on one site, every object form of the integer gates once (deterministic part)
+    k = 0
+    for L in USER_LETTERS:
+        for state in (("fake_psi", "fake_rho") if not thorough else ("fake_psi", "fake_rho", "complex", "density")):
+            n = 1 + (k % 2)
+            basis = (L if n == 1 else ("Z" + L if k % 4 == 1 else L + "Y"))
+            k += 1
+            yield {"kind": "userdict", "n": n, "basis": basis, "state": state, "seed": rng.randrange(1 << 30)}
+    for i, form in enumerate(INT_MATRIX_FORMS):
+        L = "NSPQ"[i % 4]
+        yield {"kind": "userdict", "n": 2, "basis": rng.choice("XYZ" + L) + L, "state": ("fake_psi", "fake_rho", "complex", "density")[i % 4],
+               "forms": {L: form}, "seed": rng.randrange(1 << 30)}
+    for state in ("fake_psi", "fake_rho", "complex", "density"):
+        for rep in range(8 if thorough else 3):
+            n = rng.randrange(1, 4 if state in ("fake_psi", "complex") or thorough else 3)
+            b = [rng.choice("XYZ" + USER_LETTERS) for _ in range(n)]
+            b[rng.randrange(n)] = rng.choice(DIAGONAL_LETTERS if rep % 2 == 0 else USER_LETTERS)
+            yield {"kind": "userdict", "n": n, "basis": "".join(b), "state": state, "seed": rng.randrange(1 << 30)}
+
 # ------------------------------------------------------------------ audit round: `states` given as ONE 1-D vector (outside the quantifier)
 def vecstates_case(ctx, case):
     ctx.current_case = case
@@ -921,14 +1160,14 @@ def vecstates_case(ctx, case):
     ctx.case({kk: case[kk] for kk in ("n", "basis", "probs", "explicit", "seed")}, nontrivial=False)
     ctx.count("kind=vecstates(1-D states, outcome class)")
     if probs:
-        st = af.make_density(A, n, 2, 2, qc.rand_prbm_params(rng, n, 2, 2, 0.7), qc.rand_prbm_params(rng, n, 2, 2, 1.0, d_zero=True))
+        st = build(ctx, A, lambda: af.make_density(A, n, 2, 2, qc.rand_prbm_params(rng, n, 2, 2, 0.7), qc.rand_prbm_params(rng, n, 2, 2, 1.0, d_zero=True)))
         if not af.check_sizes(ctx, st, (n, 2, 2), case, A, "vecstates/ctor-sizes", CTOR_TH):
             return
         op = st.rho(space_t, space_t)
         impl = _outcome(lambda: unitaries.rotate_rho_probs(st, basis, v1, rho=op if explicit else None).detach().numpy())
         ref = None
     else:
-        st = af.make_complex(A, n, 2, qc.rand_rbm_params(rng, n, 2, 0.7), qc.rand_rbm_params(rng, n, 2, 1.0))
+        st = build(ctx, A, lambda: af.make_complex(A, n, 2, qc.rand_rbm_params(rng, n, 2, 0.7), qc.rand_rbm_params(rng, n, 2, 1.0)))
         if not af.check_sizes(ctx, st, (n, 2), case, A, "vecstates/ctor-sizes", CTOR_TH):
             return
         op = st.psi(space_t)
@@ -977,6 +1216,8 @@ def gen_audit_cases(ctx, thorough):
             b[rng.randrange(n)] = "Z"
             exact = state.startswith("fake") and rep % 2 == 1
             yield {"kind": "zoverride", "n": n, "basis": "".join(b), "exact": exact, "state": state, "seed": rng.randrange(1 << 30)}
+    # (2b) final pass: user-added gates of special structure in every object form
+    yield from gen_userdict_cases(rng, thorough)
     # (3) one 1-D state instead of a batch: outcome classes
     for probs in (False, True):
         for explicit in (False, True):
@@ -1006,6 +1247,11 @@ def gen_cases(ctx, thorough):
         basis = "".join(ctx.rng.choice("XYZ") for _ in range(n - 3)) + ctx.rng.choice(["XZY", "YZZ", "ZXY"])
         yield {"n": n, "basis": basis[::-1] if ctx.rng.random() < 0.5 else basis, "exact": False, "kind": "psi_explicit", "seed": ctx.rng.randrange(1 << 30), "big": True}
     yield {"n": 9, "basis": "YZZZZZZXZ", "exact": False, "kind": "rho_herm", "seed": ctx.rng.randrange(1 << 30), "big": True}
+    if not thorough:   # second audit, item C04-2: the quantifier's n = 4 for the density-matrix kinds in the quick tier too (all 81 strings: thorough)
+        for kind in ("rho_herm", "rho_model", "rho_nonherm"):
+            basis = "".join(ctx.rng.choice("XYZ") for _ in range(3))
+            basis = basis[:1] + "Y" + basis[1:] if ctx.rng.random() < 0.5 else basis + "X"
+            yield {"n": 4, "basis": basis, "exact": False, "kind": kind, "seed": ctx.rng.randrange(1 << 30)}
     # sampled beyond
     for n in ((4, 5) if not thorough else (5,)):
         for _ in range(3):
@@ -1040,6 +1286,35 @@ def search(ctx):
             one_case(ctx, case)
     finally:
         ctx.driver = drv
+
+
+def env_run(ctx, env_name):
+    """a handful of cases of every call family (default dictionary, every operand kind, dictionary resolution, user-added gates in every object
+    form, Z override) with everything - dictionaries, states, operands - constructed INSIDE the process-global environment `env_name`"""
+    import random as _r
+    rng = _r.Random(f"{ctx.seed}/{env_name}")
+    keep, ctx.rng = ctx.rng, rng
+    try:
+        dict_case(ctx, af.draw_aseed(rng))
+        cases = []
+        for kind in ("psi_explicit", "psi_model", "rho_herm", "rho_nonherm", "rho_model"):
+            n = rng.randrange(1, 4)
+            cases.append({"n": n, "basis": "".join(rng.choice("XYZ") for _ in range(n - 1)) + rng.choice("XY"), "exact": False, "kind": kind,
+                          "seed": rng.randrange(1 << 30)})
+            cases.append({"n": 2, "basis": rng.choice("XYAB") + rng.choice("ABZ"), "exact": kind != "rho_model" and kind != "psi_model",
+                          "kind": kind if kind not in ("psi_model", "rho_model") else "psi_explicit", "seed": rng.randrange(1 << 30)})
+        aud = list(gen_audit_cases(ctx, False))
+        rng.shuffle(aud)
+        by_kind = {}
+        for c in aud:
+            by_kind.setdefault(c["kind"], []).append(c)
+        for k, lst in by_kind.items():
+            cases += lst[: (12 if k == "userdict" else 4)]
+        for case in _with_forms(ctx, cases):
+            one_case(ctx, case)
+            ctx.count(f"env:{env_name}:cases")
+    finally:
+        ctx.rng = keep
 
 
 def replay(ctx, case):
